@@ -6,7 +6,6 @@ import (
 	"bytes"
 	"crypto"
 	"crypto/ecdsa"
-	"crypto/rand"
 	"crypto/rsa"
 	"crypto/x509"
 	"crypto/x509/pkix"
@@ -234,7 +233,7 @@ func c16ModHex(c *ev.Ctx, values [][]byte, parsed bool) {
 			t.ExtraExtensions = append(t.ExtraExtensions, pkix.Extension{Id: c16SerialOID, Value: v})
 		}
 		// duplicate extensions are refused by crypto/x509's parser but not by its encoder; use the lenient parser under test
-		der, err := x509.CreateCertificate(rand.Reader, t, t, fix.EC(256).Public(), fix.EC(256))
+		der, err := c16Create(t, t, fix.EC(256).Public(), fix.EC(256))
 		if err != nil {
 			return
 		}
@@ -421,7 +420,7 @@ func checkC16(c *ev.Ctx) {
 		t.SignatureAlgorithm = j.alg
 		parent := c16Template(1|2, 1)
 		parent.Subject.CommonName = "verif issuer " + j.is.name
-		der, err := x509.CreateCertificate(rand.Reader, t, parent, j.s.pub, j.is.key)
+		der, err := c16Create(t, parent, j.s.pub, j.is.key)
 		if err != nil {
 			if j.alg == x509.SHA1WithRSA {
 				c.Count("sha1_refused_by_encoder", 1)
@@ -576,4 +575,37 @@ func checkC16(c *ev.Ctx) {
 	}
 	c.Sample(c16Case{Kind: "modhex", Values: []string{"0204005a1b2c"}})
 	c.Sample(c16Case{Kind: "modhex", Values: []string{"02"}})
+}
+
+// c16Create issues a certificate whose length does not depend on chance: ECDSA signatures are randomised and their DER
+// length varies with the leading bits of r and s, which would make the set of byte positions explored differ from run to
+// run; an ECDSA-signed certificate is re-issued until its signature has the maximal length for the curve.
+func c16Create(t, parent *x509.Certificate, pub any, key any) ([]byte, error) {
+	want := 0
+	if ek, ok := key.(*ecdsa.PrivateKey); ok {
+		want = map[int]int{256: 72, 384: 104, 521: 139}[ek.Curve.Params().BitSize]
+	}
+	var der []byte
+	var err error
+	for try := 0; try < 200; try++ {
+		// a constant entropy stream makes ECDSA / RSA-PSS signing a function of (key, message): Go's MaybeReadByte may or
+		// may not consume one byte first, which a constant stream cannot notice
+		der, err = x509.CreateCertificate(constReader(0x5a+byte(try)), t, parent, pub, key)
+		if err != nil || want == 0 {
+			return der, err
+		}
+		if c, perr := x509.ParseCertificate(der); perr != nil || len(c.Signature) == want {
+			return der, nil
+		}
+	}
+	return der, err
+}
+
+type constReader byte
+
+func (c constReader) Read(p []byte) (int, error) {
+	for i := range p {
+		p[i] = byte(c)
+	}
+	return len(p), nil
 }
